@@ -12,6 +12,18 @@ func (in *Interp) stdIntrinsic2(fn *ssa.Function, name string, args []Value) (Va
 	if v, ok := in.bufIntrinsic(name, args); ok {
 		return v, true
 	}
+	switch name {
+	case "github.com/hashicorp/go-version.NewVersion":
+		// over-approximation: parsing may succeed or fail for any input
+		in.intNondet++
+		if in.chooseN("semver-parse", 2) == 0 {
+			return TupleV{&PtrV{cell: &Cell{&OpaqueV{tag: "semver"}}}, (*IfaceV)(nil)}, true
+		}
+		return TupleV{&PtrV{}, in.errIface(&ErrObj{format: "Malformed version"})}, true
+	case "(*github.com/hashicorp/go-version.Version).Compare":
+		in.intNondet++
+		return IX(int64(in.chooseN("semver-compare", 3) - 1)), true
+	}
 	return nil, false
 }
 
